@@ -17,6 +17,12 @@ Guards(e) ==
             \* round trip: what was saved is what is read back; the other rows are untouched
             {<<"G_C15_RoundTrip", e.out.readback = e.out.wrote>>,
              <<"G_C15_OthersUntouched", \A u \in Users \ {e.args.user} : e.post.prim[u] = prim[u] /\ e.post.psig[u] = psig[u]>>}
+      [] e.ev = "save_fault" ->
+            \* a save during which one storage operation failed: if it says it worked the profile is stored; if it reports the
+            \* failure the store holds the old or the new profile, nothing else
+            {<<"G_C15_SaveHonest", (e.out.ok => e.out.readback = e.out.wrote) /\
+                                   (~e.out.ok => e.out.readback \in {e.out.wrote, prim[e.args.user]})>>,
+             <<"G_C15_OthersUntouched", \A u \in Users \ {e.args.user} : e.post.prim[u] = prim[u] /\ e.post.psig[u] = psig[u]>>}
       [] e.ev = "sync" ->
             {<<"G_C15_SyncWorks", (e.args.k = 0 /\ ~("pk" \in DOMAIN e.args /\ e.args.pk # 0)) => e.out.ok>>,
              <<"G_C15_MirrorAfterSync", e.out.ok => ObsContent(e) = ObsPrimWant(e)>>,
